@@ -100,6 +100,11 @@ fn gen_desc(r: &mut Rng, names: &[&str]) -> DescSpec {
     DescSpec { name, help, consts, vars }
 }
 
+/// a collector whose own descriptors repeat an identity or disagree in dimension under one name
+pub fn malformed(ds: &[DescSpec]) -> bool {
+    (0..ds.len()).any(|i| (0..i).any(|j| ds[i].identity() == ds[j].identity() || (ds[i].name == ds[j].name && ds[i].dim() != ds[j].dim())))
+}
+
 fn gen_plan(seed: u64) -> RegPlan {
     let mut r = Rng::new(seed, 1);
     let names_all = ["m1", "m2", "m3"];
@@ -132,6 +137,38 @@ fn gen_plan(seed: u64) -> RegPlan {
         }
         collectors.push(ds);
     }
+    if r.chance(20) {
+        // one self-contradictory collector (the statement does not say whether it is admitted; if it
+        // is refused, the refusal must leave no trace): well-formed descriptors first, then one that
+        // repeats an identity or disagrees in dimension with an earlier one of the same collector
+        let mut ds: Vec<DescSpec> = vec![];
+        let nd = 1 + r.below(2) as usize;
+        let mut t2 = 0;
+        while ds.len() < nd && t2 < 50 {
+            t2 += 1;
+            let d = gen_desc(&mut r, &names_all);
+            if ds.iter().any(|o| o.identity() == d.identity() || (o.name == d.name && o.dim() != d.dim())) {
+                continue;
+            }
+            ds.push(d);
+        }
+        let k = r.below(ds.len() as u64) as usize;
+        let mut bad = ds[k].clone();
+        if r.chance(50) {
+            bad.help = if bad.help == "help A" { "help B".into() } else { "help A".into() };
+            if r.chance(50) {
+                bad.consts = vec![("c".to_string(), "3".to_string())];
+            }
+        }
+        if r.chance(70) {
+            ds.push(bad);
+        } else {
+            ds.insert(r.below(ds.len() as u64 + 1) as usize, bad);
+        }
+        if malformed(&ds) {
+            collectors.push(ds);
+        }
+    }
     let nthreads = if r.chance(70) { 1 } else { 2 + r.below(2) as usize };
     let total = 4 + r.below(if nthreads == 1 { 11 } else { 8 }) as usize;
     let mut threads: Vec<Vec<ROp>> = vec![vec![]; nthreads];
@@ -163,6 +200,8 @@ pub enum RRes {
 pub struct MReg {
     pub registered: BTreeSet<usize>,
     pub ever: BTreeMap<String, (String, BTreeSet<String>, BTreeSet<String>)>,
+    /// a self-contradictory collector was admitted: the statement does not define what follows
+    pub unknown: bool,
 }
 pub struct RegSpec<'a> {
     pub collectors: &'a [Vec<DescSpec>],
@@ -181,7 +220,16 @@ impl<'a> Spec for RegSpec<'a> {
     type Op = (ROp, RRes);
     fn step(&self, s: &MReg, op: &Self::Op) -> Option<MReg> {
         let mut n = s.clone();
+        if s.unknown {
+            return Some(n);
+        }
         match (&op.0, &op.1) {
+            (ROp::Register(c), res) if malformed(&self.collectors[*c]) => match res {
+                RRes::RegOk => n.unknown = true,
+                // refused: the registry must behave as if the call had never been made
+                RRes::RegAlready | RRes::RegErr(_) => {}
+                _ => return None,
+            },
             (ROp::Register(c), res) => {
                 let (ok, clash, dimbad) = self.admit(s, *c);
                 match res {
@@ -209,12 +257,16 @@ impl<'a> Spec for RegSpec<'a> {
                 }
             }
             (ROp::Unregister(c), res) => {
-                let present = s.registered.contains(c);
-                match res {
-                    RRes::UnregOk if present => {
-                        n.registered.remove(c);
+                // a collector is identified by the set of its descriptor identities (generated
+                // well-formed collectors have pairwise different sets; a self-contradictory one may
+                // repeat an identity and thereby equal a well-formed one)
+                let idset = |c: usize| self.collectors[c].iter().map(|d| d.identity()).collect::<BTreeSet<_>>();
+                let present = s.registered.iter().copied().find(|r| idset(*r) == idset(*c));
+                match (res, present) {
+                    (RRes::UnregOk, Some(r)) => {
+                        n.registered.remove(&r);
                     }
-                    RRes::UnregErr if !present => {}
+                    (RRes::UnregErr, None) => {}
                     _ => return None,
                 }
             }
@@ -325,7 +377,7 @@ fn execute(plan: &RegPlan, mode: Mode) -> RunOut {
     }
     h.sort_by_key(|o| o.inv);
     let spec = RegSpec { collectors: &plan.collectors };
-    let init = MReg { registered: BTreeSet::new(), ever: BTreeMap::new() };
+    let init = MReg { registered: BTreeSet::new(), ever: BTreeMap::new(), unknown: false };
     if linearize(&spec, init.clone(), &h).is_none() {
         // explain: replay sequentially (exact for single-threaded histories) to find the first disagreement
         let mut s = init;
